@@ -24,11 +24,15 @@
    checkpoint carries no identity of its proposal.                                      *)
 EXTENDS Naturals, Sequences, FiniteSets, TLC
 
-CONSTANTS MaxOps, RewriteFlow, DropStaleCkpt, MapClassName, ResumeSavesConfig
+CONSTANTS MaxOps, RewriteFlow, DropStaleCkpt, MapClassName, ResumeSavesConfig,
+          Narrow    \* TRUE: a deeper exploration of a narrower alphabet (context-driven paths only, no faults,
+                    \* no resume_from_file) - the histories that need seven and more operations
 
 Data == {"A", "B"}
 NoCk == [sampler |-> "none", under |-> "none", final |-> FALSE, it |-> 0, cfgsaved |-> FALSE, refit |-> FALSE]
-NoDefaults == [on |-> FALSE, save_config |-> FALSE, saved_config |-> FALSE, saved_flow |-> FALSE, perm |-> FALSE]
+\* side: the defaults point at *another* file (a nested auto_checkpoint on a second file): what is written
+\* under them does not touch the file this model follows, but the flags are kept all the same
+NoDefaults == [on |-> FALSE, save_config |-> FALSE, saved_config |-> FALSE, saved_flow |-> FALSE, perm |-> FALSE, side |-> FALSE]
 NoCfg == "absent"     \* /aspire_config missing; otherwise its sampler_type: "none" | "importance" | "smc"
 
 VARIABLES
@@ -58,19 +62,21 @@ SamplerTypes == {"importance", "smc", "emcee_smc"}
 (* ---- fit(samples, checkpoint_path, overwrite) ----------------------- *)
 Fit(d, usePath, ow) ==
   /\ nops < MaxOps /\ nops' = nops + 1 /\ op' = <<"fit", d, usePath, ow, "ok">>
+  /\ ~(usePath /\ defaults.on /\ defaults.side)      \* (an explicit path inside a context on another file: not modelled)
   /\ flow' = d
-  /\ LET path == usePath \/ defaults.on
+  /\ LET anyp == usePath \/ defaults.on                    \* some file is written
+         path == usePath \/ (defaults.on /\ ~defaults.side)  \* the file this model follows is written
          dflt == defaults
          save_config == IF usePath THEN TRUE ELSE defaults.save_config
          saved_config == defaults.saved_config
-     IN IF path
-          THEN /\ fcfg' = IF save_config /\ ~saved_config THEN CfgType ELSE fcfg
-               /\ defaults' = IF save_config /\ ~saved_config /\ defaults.on
-                                THEN [dflt EXCEPT !.saved_config = TRUE] ELSE dflt
-               /\ fflow' = IF fflow = "none" \/ ow THEN d ELSE fflow
-               /\ fck' = IF DropStaleCkpt /\ fflow # "none" /\ ow THEN NoCk ELSE fck
-          ELSE UNCHANGED <<fcfg, fflow, fck>> /\ defaults' = dflt
-  /\ kf' = IF (usePath \/ defaults.on)
+     IN /\ defaults' = IF anyp /\ save_config /\ ~saved_config /\ defaults.on
+                          THEN [dflt EXCEPT !.saved_config = TRUE] ELSE dflt
+        /\ IF path
+             THEN /\ fcfg' = IF save_config /\ ~saved_config THEN CfgType ELSE fcfg
+                  /\ fflow' = IF fflow = "none" \/ ow THEN d ELSE fflow
+                  /\ fck' = IF DropStaleCkpt /\ fflow # "none" /\ ow THEN NoCk ELSE fck
+             ELSE UNCHANGED <<fcfg, fflow, fck>>
+  /\ kf' = IF (usePath \/ (defaults.on /\ ~defaults.side))
                 /\ (IF usePath THEN TRUE ELSE defaults.save_config) /\ ~defaults.saved_config
              THEN "fit" ELSE kf
   /\ UNCHANGED <<lastType, ctx, primed, tainted>>
@@ -79,6 +85,7 @@ Fit(d, usePath, ow) ==
 \* fault: "none" | "early" (first likelihood call) | "mid" (after the first checkpoint of this run)
 Sample(kind, usePath, fault) ==
   /\ nops < MaxOps /\ nops' = nops + 1
+  /\ ~(usePath /\ defaults.on /\ defaults.side)
   /\ flow # "none"
   \* a run resumed from a final checkpoint never calls the likelihood: nothing to interrupt
   /\ ~(fault = "early" /\ primed.ck # NoCk /\ primed.ck.final
@@ -88,7 +95,8 @@ Sample(kind, usePath, fault) ==
          valid == stype \in SamplerTypes
          \* importance sampler has no resume_from parameter
          typeErr == valid /\ stype = "importance" /\ resuming
-         path == usePath \/ defaults.on
+         anyp == usePath \/ defaults.on
+         path == usePath \/ (defaults.on /\ ~defaults.side)
          save_config == IF usePath THEN TRUE ELSE defaults.save_config
          supports == stype # "importance"
          \* a checkpoint resumed by another sampler class than the one that wrote it (the caller asked
@@ -112,8 +120,8 @@ Sample(kind, usePath, fault) ==
                  ck0 == IF DropStaleCkpt /\ path /\ ~resuming THEN NoCk
                         ELSE IF path /\ stale /\ fck # NoCk THEN [fck EXCEPT !.refit = TRUE] ELSE fck
                  d1 == IF defaults.on
-                         THEN [defaults EXCEPT !.saved_config = (@ \/ (path /\ save_config)),
-                                               !.saved_flow = (@ \/ writeFlow)]
+                         THEN [defaults EXCEPT !.saved_config = (@ \/ (anyp /\ save_config)),
+                                               !.saved_flow = (@ \/ (IF path THEN writeFlow ELSE anyp /\ RewriteFlow))]
                          ELSE defaults
              IN IF typeErr \/ (fault = "early") THEN
                   \* the exception leaves sample_posterior before any checkpoint of this run
@@ -152,11 +160,11 @@ Sample(kind, usePath, fault) ==
                      /\ UNCHANGED <<flow, ctx, primed>>
 
 (* ---- with aspire.auto_checkpoint(path): ... -------------------------- *)
-EnterAuto(save_config) ==
-  /\ nops < MaxOps /\ nops' = nops + 1 /\ op' = <<"enter", save_config>>
+EnterAuto(save_config, side) ==
+  /\ nops < MaxOps /\ nops' = nops + 1 /\ op' = <<"enter", save_config, side>>
   /\ Len(ctx) < 2
   /\ ctx' = Append(ctx, defaults)
-  /\ defaults' = [on |-> TRUE, save_config |-> save_config, saved_config |-> FALSE, saved_flow |-> FALSE, perm |-> FALSE]
+  /\ defaults' = [on |-> TRUE, save_config |-> save_config, saved_config |-> FALSE, saved_flow |-> FALSE, perm |-> FALSE, side |-> side]
   /\ UNCHANGED <<flow, lastType, primed, fcfg, fflow, fck, tainted, kf>>
 
 ExitAuto ==
@@ -172,6 +180,7 @@ ExitAuto ==
 \* about the file (its last sampler type is the one recorded in the configuration).
 ClassToType(c) == IF MapClassName /\ c = "MiniPCNSMC" THEN "smc" ELSE c
 ResumeFromFile(ov) ==
+  /\ ~Narrow
   /\ nops < MaxOps /\ nops' = nops + 1
   /\ Len(ctx) = 0
   /\ IF fcfg = NoCfg \/ fflow = "none"
@@ -184,7 +193,7 @@ ResumeFromFile(ov) ==
             /\ primed' = IF fck = NoCk THEN [ck |-> NoCk, type |-> "none"]
                          ELSE [ck |-> fck, type |-> IF ov # "none" THEN ov
                                                     ELSE IF fcfg # "none" THEN fcfg ELSE ClassToType(fck.sampler)]
-            /\ defaults' = [on |-> TRUE, save_config |-> ResumeSavesConfig, saved_config |-> FALSE, saved_flow |-> FALSE, perm |-> TRUE]
+            /\ defaults' = [on |-> TRUE, save_config |-> ResumeSavesConfig, saved_config |-> FALSE, saved_flow |-> FALSE, perm |-> TRUE, side |-> FALSE]
             /\ ctx' = <<>>
             \* rebuilt from a file that already was inconsistent for one of the excluded reasons
             \* (any other reason would have violated the invariant in this very state)
@@ -192,9 +201,10 @@ ResumeFromFile(ov) ==
             /\ UNCHANGED <<fcfg, fflow, fck, kf>>
 
 Next ==
-  \/ \E d \in Data, p \in BOOLEAN, ow \in BOOLEAN : Fit(d, p, ow)
-  \/ \E k \in {"importance", "smc"}, p \in BOOLEAN, f \in {"none", "early", "mid"} : Sample(k, p, f)
-  \/ \E sc \in BOOLEAN : EnterAuto(sc)
+  \/ \E d \in Data, p \in (IF Narrow THEN {FALSE} ELSE BOOLEAN), ow \in (IF Narrow THEN {FALSE} ELSE BOOLEAN) : Fit(d, p, ow)
+  \/ \E k \in {"importance", "smc"}, p \in (IF Narrow THEN {FALSE} ELSE BOOLEAN),
+        f \in (IF Narrow THEN {"none"} ELSE {"none", "early", "mid"}) : Sample(k, p, f)
+  \/ \E sc \in (IF Narrow THEN {TRUE} ELSE BOOLEAN), side \in BOOLEAN : EnterAuto(sc, side)
   \/ ExitAuto
   \* the override names a sampler that can resume the stored checkpoint (another SMC class)
   \/ \E ov \in {"none", "emcee_smc"} : ResumeFromFile(ov)
